@@ -365,6 +365,31 @@ def random_observer_case(rng, i, maxlen=40, flavour=0):
                     return (b, a) if rng.random() < 0.25 else (a, b)
                 return pick_linked(rng, sh)
             rr = rng.random()
+            sp = rng.random()
+            if sp < 0.05:
+                # a mutator called on a copy of the graph: nothing changes here
+                ops.append("gcopy %s %s" % (rng.choice(["ctor", "clone", "assign"]),
+                                            rng.choice(["deleteNode %d" % onode(), "unlink %d %d" % oends(), "createNodeOnEdge %d" % oedge(),
+                                                        "createNode", "makeUndirected", "link %d %d" % (onode(), onode())])))
+                continue
+            if sp < 0.075:
+                a, b = (oedge(), pick_edge(rng, sh)) if rng.random() < 0.5 else (onode(), pick_node(rng, sh))
+                kind = "notifyE" if rng.random() < 0.5 else "notifyN"
+                ops.append("%s %d %d" % (kind, a, b))
+                for ob in obs.values():
+                    m, mi = (ob.e, ob.ei) if kind == "notifyE" else (ob.n, ob.ni)
+                    for l in [l for l, v in m.items() if v in (a, b)]:
+                        del m[l]; mi.pop(l, None)
+                continue
+            if sp < 0.085:
+                n = rng.randint(0, 4)
+                ops.append("gassign %d" % n)
+                sh.d = not sh.d
+                sh.nodes = set(range(n)); sh.edges = {i: (i, i + 1) for i in range(n - 1)}
+                sh.nn = n; sh.ne = max(n - 1, 0)
+                for ob in obs.values():
+                    ob.n.clear(); ob.e.clear(); ob.ni.clear(); ob.ei.clear()
+                continue
             if rr < 0.08 and len(sh.nodes) < MAXN:
                 g = "createNode"
             elif rr < 0.22:
@@ -428,7 +453,9 @@ GRAPH_OPS = (["createNode", "makeDirected", "makeUndirected"]
              + ["link %d %d" % p for p in ((2, 3), (1, 0), (3, 3), (0, 1), (0, 9))]
              + ["linkE %d %d %d" % t for t in ((2, 3, 9), (3, 1, 0), (1, 3, 4))]
              + ["switchNodes %d %d" % p for p in ((0, 1), (2, 1), (2, 2), (3, 0), (1, 3))]
-             + ["setRoot %d" % n for n in (2, 9)])
+             + ["setRoot %d" % n for n in (2, 9)]
+             + ["gcopy ctor deleteNode 0", "gcopy clone createNodeOnEdge 0", "gcopy assign unlink 0 1", "gcopy ctor makeUndirected",
+                "gassign 0", "gassign 3", "notifyE 0 1", "notifyE 2 7", "notifyN 1 3", "notifyN 0 9"])
 
 COPY_KINDS = ["o.copy", "o.clone", "o.copyvia", "o.assign"]
 
